@@ -2187,3 +2187,75 @@ def c23_regionkey(R):
                         construct=f"{q}: region maps paired by position",
                     )
     R.need(n >= 4, f"only {n} places found where per-region values of two value-sets meet")
+
+
+# ----------------------------------------------------------------------------- C23.emptymerge
+
+
+@rule(
+    "C23.emptymerge",
+    props=("C23",),
+    floor=2,
+    family="GRD",
+    desc="the joins of a value set (union, widen) record a plain (region-less) operand also when the value set has no "
+    "region yet: in the arm for an operand that is not a ValueSet, the region map is written somewhere outside a loop "
+    "over the value set's own regions (such a loop does nothing for ValueSet.empty())",
+)
+def c23_emptymerge(R):
+    tree = R.tree
+    m = tree.mod(VS)
+    n = 0
+    for name in ("union", "widen"):
+        fn = tree.func_inlined(VS, f"ValueSet.{name}", exclude=("_set_si", "_merge_si"))
+        ps = [a.arg for a in fn.args.args]
+        R.need(len(ps) == 2, f"ValueSet.{name} no longer takes (self, b)")
+        b = ps[1]
+        # the statements that run for an operand that is not a ValueSet: the other arm of the test of the operand's type
+        arms = []
+        for st in walk_no_nested(fn):
+            if isinstance(st, ast.If):
+                t = ast.unparse(st.test)
+                if t in (f"type({b}) is ValueSet", f"isinstance({b}, ValueSet)"):
+                    arms.append(st.orelse)
+                elif t in (f"type({b}) is not ValueSet", f"not isinstance({b}, ValueSet)"):
+                    arms.append(st.body)
+        R.need(len(arms) == 1 and arms[0], f"ValueSet.{name}: the arm for an operand that is not a ValueSet was not found")
+        n += 1
+        outside = []
+        inside = []
+
+        def visit(stmts, in_own_loop):
+            for st in stmts:
+                for x in ast.walk(st) if not isinstance(st, (ast.For, ast.If, ast.While, ast.With, ast.Try)) else [st]:
+                    rec = False
+                    if isinstance(x, (ast.Assign, ast.AugAssign)):
+                        tgs = x.targets if isinstance(x, ast.Assign) else [x.target]
+                        rec = any(isinstance(t_, ast.Subscript) and _region_map(t_.value) is not None for t_ in tgs)
+                    elif isinstance(x, ast.Call) and isinstance(x.func, ast.Attribute) and x.func.attr in ("_set_si", "_merge_si"):
+                        rec = True
+                    if rec:
+                        (inside if in_own_loop else outside).append(x)
+                if isinstance(st, ast.For):
+                    own = _region_iter(st.iter) is not None
+                    visit(st.body, in_own_loop or own)
+                    visit(st.orelse, in_own_loop)
+                elif isinstance(st, (ast.If, ast.While)):
+                    visit(st.body, in_own_loop)
+                    visit(st.orelse, in_own_loop)
+                elif isinstance(st, ast.With):
+                    visit(st.body, in_own_loop)
+                elif isinstance(st, ast.Try):
+                    visit(st.body + st.orelse + st.finalbody + [s_ for h in st.handlers for s_ in h.body], in_own_loop)
+
+        visit(arms[0], False)
+        R.check(
+            bool(outside) or not inside,
+            m,
+            fn,
+            f"{name}: a plain operand is recorded even without a region to merge it into",
+            f"ValueSet.{name} records an operand that is not a ValueSet only inside a loop over the value set's own regions "
+            f"(`{norm(inside[0])[:70] if inside else ''}`): for a value set without regions the loop does nothing and the operand is lost - "
+            f"ValueSet.empty(8).{name}(5) was empty (eval() == [], cardinality 0)",
+            construct=f"{name}: plain operand recorded only per existing region",
+        )
+    R.need(n >= 2, "ValueSet.union / widen not found")
